@@ -21,6 +21,7 @@ class CallMixin(object):
         f = n.func
         # dropped output calls inside expressions
         if self.is_dropped_call(n):
+            self.eval_dropped_args(n)
             return None
         # spec-only forms
         if self.in_spec and f.k == 'Name':
